@@ -54,6 +54,12 @@ def run(ctx):
         ctx.report("C08-chokepoint", "builtin-apply", "the apply builtin does not go through apply_procedure", where_of(napply))
     ctx.floor("C08-chokepoint", 4)
 
+    # ------------------------------------------------------------------ C08-propagation
+    ctx.rule("C08-propagation", "a fault in any form of a procedure body (internal definition, non-final form, final form) stops the "
+                                "application with that error; every form before it was evaluated, nothing after it is")
+    from . import evaltables as _evt
+    _evt.rule_body_errors(ctx, "C08-propagation")
+
     # ------------------------------------------------------------------ C08-arity-per-application
     ctx.rule("C08-arity-per-application", "the argument count is checked against the parameter list of the procedure "
                                           "that is about to be applied, for every source of that procedure")
